@@ -505,6 +505,21 @@ func (cx *TermCtx) Cmp(op string, a, b *Term) *Term {
 	if a == b {
 		return mkBool(op == "bvule" || op == "bvsle")
 	}
+	if b.IsConst() && (op == "bvult" || op == "bvule") {
+		// cheap range facts: (x | c1) >= c1 ; (x & m) <= m
+		if a.Op == "bvor" && a.Args[1].IsConst() {
+			c1 := a.Args[1].C
+			if (op == "bvult" && c1 >= b.C) || (op == "bvule" && c1 > b.C) {
+				return tFalse
+			}
+		}
+		if a.Op == "bvand" && a.Args[1].IsConst() {
+			m := a.Args[1].C
+			if (op == "bvult" && m < b.C) || (op == "bvule" && m <= b.C) {
+				return tTrue
+			}
+		}
+	}
 	switch op {
 	case "bvult":
 		if b.IsConst() && b.C == 0 {
